@@ -118,7 +118,8 @@ def sort_dataframe_by_onsets(df):
         # Create a copy and sort by onsets as floats(if needed), but continue to keep the string version.
         df_copy = df.copy()
         df_copy['_temp_onset_sort'] = pd.to_numeric(df_copy['onset'], errors='coerce')
-        df_copy.sort_values(by='_temp_onset_sort', inplace=True)
+        # A stable sort keeps rows that share an onset in file order.
+        df_copy.sort_values(by='_temp_onset_sort', inplace=True, kind='mergesort')
         df_copy.drop(columns=['_temp_onset_sort'], inplace=True)
 
         return df_copy
